@@ -24,7 +24,7 @@ import vlib
 META = {
     "category": "proof",
     "text": "Coq theorems (Books/Props_C04.v, closed under the global context) over an executable model of lsmtk's manifest transactions and offline verifier, for ALL histories (flush, merging compaction, GC, trivial move, reopen with log recovery; any entries, any cut of the outputs into files, a manifest rollover after any edit): the manifest lists exactly the tree's files, recorded O = sum of the listed setsums = C14-setsum of all entries stored, every file name = setsum recomputed from its entries, every transaction I = O + D with D = sum(removed) - sum(added) and I_n = O_(n-1) across fragments and roll-ups; none of the store's own balance checks/asserts can fire; LsmVerifier (verify_one chained over fragments incl. the GC replay verify_gc) and ManifestVerifier accept every such history; in any balanced log a change of one of I/O/D/an added/a removed digest of one transaction (or of a roll-up's O) is rejected with an error, also stated on the hex STRINGS the manifest holds: one character at any of the 64 positions of any recorded digest replaced by a hex digit of another value parses to a different canonical setsum and the pass is rejected; every accepted history of the C01 model (Lsm/History.v, incl. ingests, GCs and reopens), mapped by Books/Bridge.v, runs in the Books model and its books balance (C04_lsm_histories_balance, hypotheses = the boolean bridge_okb); altering one entry of one output changes its setsum OUTSIDE the known class setsum-framing-collision (sst::Setsum frames a put without length prefixes, so different entries can have one frame and then one setsum for any hash: C04_entry_tamper_framing_collision_refuted) under the stated hypothesis that the hash is injective and non-zero on the frames involved, so the store refuses the compaction and the verifier the log; an in-place change of an added sst's entries is rejected since the verifier recomputes every added sst's setsum (fix 671f80f); what the verifier does not look at is stated (I, D and added digests of a roll-up; the two newest fragments of a pass). Tied to the code by lock-step replay of real single-stepped histories on the extracted model after every transaction, an independent Python recomputation of the property from the real fragments and files, the real verifier on live directories, tamper/malformed campaigns on copies, SIGKILL crash points (oracle only), and a concurrent stage (real compaction threads racing with ingesting threads; the recorded manifest history audited by the oracle and the extracted verifier) that validates the model's atomic-commit assumption.",
-    "note": "Trusted: Coq kernel; extraction (ExtrOcamlBasic) + ocaml/books driver (SHA3-256 digests and the collector's answers are tables filled by the check; u64 parsing of 'L' is in the driver); harness c04 + lsmtk hooks (cfg blue_verif single-step/dump); Python hashlib SHA3-256; checks/c04_*.py. Modelled, not verified here: the merging cursor as a sort of distinct (key,timestamp) pairs (C11), the collector as an arbitrary function (C05), the multi-builder's cuts and mani's rollover rule as per-step inputs (C10/C13), level placement (the tree is a multiset of files), the file system: trash/unlink/backoff protocol of the verifier is C08's subject (files are looked up by name). The theorems assume no setsum collision between different files (checked per step: `accepted`). Not checked by the verifier, and stated as a theorem: I and D of a roll-up edit. Fixed findings: F17 (bc4e529), F18 (48c731b), C12's WriteBatch setsum (573d7cf), in-place entry tamper unverified (671f80f). Known class: setsum-framing-collision (format change needed).",
+    "note": "Trusted: Coq kernel; extraction (ExtrOcamlBasic) + ocaml/books driver (SHA3-256 digests and the collector's answers are tables filled by the check; u64 parsing of 'L' is in the driver); harness c04 + lsmtk hooks (cfg blue_verif single-step/dump); Python hashlib SHA3-256; checks/c04_*.py. Modelled, not verified here: the merging cursor as a sort of distinct (key,timestamp) pairs (C11), the collector as an arbitrary function (C05), the multi-builder's cuts and mani's rollover rule as per-step inputs (C10/C13), level placement (the tree is a multiset of files), the file system: trash/unlink/backoff protocol of the verifier is C08's subject (files are looked up by name). The theorems assume no setsum collision between different files (checked per step: `accepted`). Not checked by the verifier, and stated as a theorem: I and D of a roll-up edit. Fixed findings: F17 (bc4e529), F18 (48c731b), C12's WriteBatch setsum (573d7cf), in-place entry tamper unverified (671f80f). Known class: setsum-framing-collision (format change needed). The model's verifier takes parsed edits: a manifest line that fails its crc32c is refused by the reader (C13's theorem) and the campaign checks that both real verifiers turn that into a rejection.",
 }
 
 PROPS = "theories/Books/Props_C04.v"
